@@ -2,7 +2,7 @@
    vm_compute on the observations the Go drivers recorded.
    check_case: the model computes what the implementation did.
    spec_case : what the implementation did satisfies the specification. *)
-From Sdns Require Export Common.Base Gen.C17 C17.Model.
+From Sdns Require Export Common.Base Common.GoList Gen.C17 C17.Model.
 Open Scope N_scope.
 
 Inductive case :=
